@@ -298,6 +298,12 @@ def run(repo: Repo, chk: Check, thorough: bool = False) -> None:
         adds = [a for a in calls_in(re_) if call_name(a) == 'add' and isinstance(a.func, ast.Attribute) and dotted(a.func.value) == setname]
         if not adds:
             ok = False
+        # the de-duplication key is the qualified name (two objects may share a short name)
+        keys = [member[0].left] + [a.args[0] for a in adds if a.args]
+        if not all(isinstance(k, ast.Call) and call_name(k) == 'fullName' for k in keys):
+            ok = False
+            key_detail = f'the "already reported" set is keyed by `{norm(keys[0])}`, not by the qualified name: the errors of a second object with the same short name are never reported'
+
     chk.ob('R08.6', 'pydoctor.epydoc2stan.reportErrors :: once per object', ok,
-           'report() is dominated by a `not in parse_errors[section]` test and the name is added' if ok else
-           'reportErrors no longer de-duplicates per object', re_.loc)
+           'report() is dominated by a `fullName() not in parse_errors[section]` test and the name is added' if ok else
+           (locals().get('key_detail') or 'reportErrors no longer de-duplicates per object'), re_.loc)
